@@ -37,6 +37,8 @@ def main (args : List String) : IO UInt32 := do
       else if ws.head? == some "phvalid" || ws.head? == some "phupd" then (st, Driver.PHash.handle ws)
       -- transcript-hash / membership-tag rows on real message bytes (stateless)
       else if ws.head? == some "th" || ws.head? == some "thp" || ws.head? == some "mtag" then (st, Driver.TH.handle ws)
+      -- the external public key of a real epoch from its external secret
+      else if ws.head? == some "extpub" then (st, Driver.C14.handle ws)
       -- epoch secrets of a real path-less commit (stateless key-schedule row)
       else if ws.head? == some "eks" then (st, (Driver.C13.step {} ws).2)
       else Driver.TreeD.step st ws) {}; return 0
@@ -46,5 +48,6 @@ def main (args : List String) : IO UInt32 := do
   | ["th"] => loopS stdin stdout (fun (_ : Unit) ws => ((), Driver.TH.handle ws)) (); return 0
   | ["group"] => loopS stdin stdout Driver.GroupD.step {}; return 0
   | ["thash"] => loopS stdin stdout (fun (_ : Unit) ws => ((), Driver.THash.handle ws)) (); return 0
-  | ["c13"] => loopS stdin stdout Driver.C13.step {}; return 0
+  | ["c13"] => loopS stdin stdout (fun (st : Driver.C13.St) ws =>
+      if ws.head? == some "extpub" then (st, Driver.C14.handle ws) else Driver.C13.step st ws) {}; return 0
   | _ => IO.eprintln "usage: mlsmodel <mode>"; return 2
